@@ -1450,7 +1450,7 @@ def format_eq_hyp(ck, nl, cases):
     inp = {'nl': nl, 'request': f'nlequiv 0{int(fix)}{int(one)} {ptok} {gtok}'}
     try:
         ans = common.run_driver([f"nlequiv 0{int(fix)}{int(one)} {ptok} {gtok} {'/'.join(reqs) or '~'}"])[0].split(' ')
-        flags = dict(x.split('=') for x in ans[:5])
+        flags = dict(x.split('=') for x in ans[:6])
         common_, closed, bok, vok = flags['common'] == '1', flags['closed'] == '1', flags['benchok'] == '1', flags['vok'] == '1'
     except Exception as ex:
         ck.broken_tie('format_eq: driver', f'{type(ex).__name__}: {ex}'[:300], inp=inp); return
@@ -1463,17 +1463,20 @@ def format_eq_hyp(ck, nl, cases):
     ck.hist[f'format-eq-hyp:closedNlB={int(closed)}'] += 1
     try:        # the fragment of the Verilog rendering WITH branch forks (hypothesis of `bench_verilog_sim_equiv`, not derived)
         a1 = common.run_driver([f"nlequiv 1{int(fix)}{int(one)} {ptok} {gtok} ~"])[0].split(' ')
-        ck.hist[f"format-eq-hyp:verilogOKB(branchforks)={dict(x.split('=') for x in a1[:5])['vok']}"] += 1
+        f1 = dict(x.split('=') for x in a1[:6])
+        ck.hist[f"format-eq-hyp:closedBfNlB={f1['closedbf']},verilogOKB(branchforks)={f1['vok']}"] += 1
+        if f1['closedbf'] == '1' and f1['vok'] != '1':
+            ck.broken_tie('format_eq: renderings', f'closedBfNlB but verilogOKB with branch forks is false: {" ".join(a1[:6])}', inp=inp); return
     except Exception as ex:
         ck.broken_tie('format_eq: driver', f'{type(ex).__name__}: {ex}'[:300], inp=inp); return
     ck.hist[f'format-eq-hyp:benchOKB={int(bok)},verilogOKB={int(vok)}'] += 1
     if not closed:      # every generated operand is driven and no generated name looks like a constant bit
-        ck.broken_tie('format_eq: fragment', f'closedNlB is false for a generated netlist: {" ".join(ans[:5])}', inp=inp); return
+        ck.broken_tie('format_eq: fragment', f'closedNlB is false for a generated netlist: {" ".join(ans[:6])}', inp=inp); return
     if not (bok and vok):
-        ck.broken_tie('format_eq: renderings', f'a canonical rendering of a netlist inside closedNlB does not build: {" ".join(ans[:5])}', inp=inp); return
-    if int(flags['npos']) != npos:
+        ck.broken_tie('format_eq: renderings', f'a canonical rendering of a netlist inside closedNlB does not build: {" ".join(ans[:6])}', inp=inp); return
+    if int(dict(x.split('=') for x in ans[:6])['npos']) != npos:
         ck.broken_tie('format_eq: positions', f"model nPos {flags['npos']} != {npos}", inp=inp); return
-    got = ans[5].split('/') if len(ans) == 6 and ans[5] != '~' else []
+    got = ans[6].split('/') if len(ans) == 7 and ans[6] != '~' else []
     if len(got) != sub.shape[1]:
         ck.broken_tie('format_eq: driver answer', ' '.join(ans)[:200], inp=inp); return
     exp = truth_table(nl, sub)
